@@ -43,11 +43,13 @@ pub enum Ser {
     Fastq,
     FastqCrlf,
     FastqNoFinalNl,
+    FastaCrlfNoFinalNl,
+    FastqCrlfNoFinalNl,
 }
 
 impl Ser {
     fn is_fastq(self) -> bool {
-        matches!(self, Ser::Fastq | Ser::FastqCrlf | Ser::FastqNoFinalNl)
+        matches!(self, Ser::Fastq | Ser::FastqCrlf | Ser::FastqNoFinalNl | Ser::FastqCrlfNoFinalNl)
     }
     fn code(self) -> String {
         match self {
@@ -58,6 +60,8 @@ impl Ser {
             Ser::Fastq => "ql".into(),
             Ser::FastqCrlf => "qc".into(),
             Ser::FastqNoFinalNl => "qn".into(),
+            Ser::FastaCrlfNoFinalNl => "fx".into(),
+            Ser::FastqCrlfNoFinalNl => "qx".into(),
         }
     }
     fn parse(s: &str) -> Ser {
@@ -68,6 +72,8 @@ impl Ser {
             "ql" => Ser::Fastq,
             "qc" => Ser::FastqCrlf,
             "qn" => Ser::FastqNoFinalNl,
+            "fx" => Ser::FastaCrlfNoFinalNl,
+            "qx" => Ser::FastqCrlfNoFinalNl,
             w => Ser::FastaWrap(w[2..].parse().unwrap()),
         }
     }
@@ -82,7 +88,7 @@ pub fn serialise(recs: &[Rec], ser: Ser) -> (Vec<u8>, Vec<usize>) {
             bounds.push(t.len());
         }
         match ser {
-            Ser::FastaLine | Ser::FastaCrlf | Ser::FastaNoFinalNl => {
+            Ser::FastaLine | Ser::FastaCrlf | Ser::FastaNoFinalNl | Ser::FastaCrlfNoFinalNl => {
                 t.extend_from_slice(format!(">{}\n", r.header).as_bytes());
                 t.extend_from_slice(&r.bases);
                 t.push(b'\n');
@@ -94,7 +100,7 @@ pub fn serialise(recs: &[Rec], ser: Ser) -> (Vec<u8>, Vec<usize>) {
                     t.push(b'\n');
                 }
             }
-            Ser::Fastq | Ser::FastqCrlf | Ser::FastqNoFinalNl => {
+            Ser::Fastq | Ser::FastqCrlf | Ser::FastqNoFinalNl | Ser::FastqCrlfNoFinalNl => {
                 t.extend_from_slice(format!("@{}\n", r.header).as_bytes());
                 t.extend_from_slice(&r.bases);
                 t.extend_from_slice(b"\n+\n");
@@ -105,8 +111,9 @@ pub fn serialise(recs: &[Rec], ser: Ser) -> (Vec<u8>, Vec<usize>) {
             }
         }
     }
+    let strip_final = matches!(ser, Ser::FastaNoFinalNl | Ser::FastqNoFinalNl | Ser::FastaCrlfNoFinalNl | Ser::FastqCrlfNoFinalNl);
     match ser {
-        Ser::FastaCrlf | Ser::FastqCrlf => {
+        Ser::FastaCrlf | Ser::FastqCrlf | Ser::FastaCrlfNoFinalNl | Ser::FastqCrlfNoFinalNl => {
             let mut u = Vec::with_capacity(t.len() + 16);
             let mut nb = Vec::new();
             let mut bi = 0;
@@ -119,6 +126,9 @@ pub fn serialise(recs: &[Rec], ser: Ser) -> (Vec<u8>, Vec<usize>) {
                     u.push(b'\r');
                 }
                 u.push(b);
+            }
+            if strip_final && u.ends_with(b"\r\n") {
+                u.truncate(u.len() - 2);
             }
             (u, nb)
         }
@@ -342,8 +352,8 @@ fn long_bases(len: usize, salt: usize) -> Vec<u8> {
 
 pub fn c06(ctx: &mut Ctx) {
     let lists = rec_lists(ctx.pick(3, 4));
-    let fasta_sers = [Ser::FastaLine, Ser::FastaWrap(1), Ser::FastaWrap(2), Ser::FastaWrap(3), Ser::FastaCrlf, Ser::FastaNoFinalNl];
-    let fastq_sers = [Ser::Fastq, Ser::FastqCrlf, Ser::FastqNoFinalNl];
+    let fasta_sers = [Ser::FastaLine, Ser::FastaWrap(1), Ser::FastaWrap(2), Ser::FastaWrap(3), Ser::FastaCrlf, Ser::FastaNoFinalNl, Ser::FastaCrlfNoFinalNl];
+    let fastq_sers = [Ser::Fastq, Ser::FastqCrlf, Ser::FastqNoFinalNl, Ser::FastqCrlfNoFinalNl];
     let mut sh = ctx.shard;
     let mut case_no = 0u64;
     let mut n_lists = 0u64;
@@ -388,6 +398,35 @@ pub fn c06(ctx: &mut Ctx) {
                     let argv = vec!["case".to_string(), "C06long".to_string(), len.to_string(), nrec.to_string(), ser.code(), cont.to_string()];
                     c06_read(ctx, &recs, ser, cont, &bytes, case_no, argv);
                     ctx.rep.count("files.long_records", 1);
+                }
+            }
+        }
+    }
+    // length sweep of the FIRST record: every length up to 64, then a dense grid up to 70 000 (all residues modulo the
+    // usual buffer sizes get hit), followed by a short second record
+    {
+        let mut lens: Vec<usize> = (1..=64).collect();
+        let mut l = 65usize;
+        let mut i = 0usize;
+        let step = ctx.pick(97usize, 23);
+        while l <= 70_000 {
+            lens.push(l);
+            i += 1;
+            l += step + (i % 7);
+        }
+        for &len in &lens {
+            for ser in [Ser::FastaLine, Ser::Fastq, Ser::FastqCrlf] {
+                for cont in ["plain", "gz1-l6"] {
+                    if !sh.mine() {
+                        continue;
+                    }
+                    let recs = vec![Rec { header: format!("first len={}", len), bases: long_bases(len, len) }, Rec { header: "second".into(), bases: b"ACGTN".to_vec() }];
+                    let (text, bounds) = serialise(&recs, ser);
+                    let bytes = container_bytes(&text, &bounds, cont);
+                    case_no += 1;
+                    let argv = vec!["case".to_string(), "C06len".to_string(), len.to_string(), ser.code(), cont.to_string()];
+                    c06_read(ctx, &recs, ser, cont, &bytes, case_no, argv);
+                    ctx.rep.count("files.length_sweep", 1);
                 }
             }
         }
@@ -932,8 +971,110 @@ fn c08_bin_lattice(ctx: &mut Ctx) {
     }
 }
 
+/// One CovComputer object, several (build_table, compute_coverages) rounds with settings changed in between
+/// through the public setters: every round must give what a fresh computer with those settings gives.
+fn c08_reuse_sequence(ctx: &mut Ctx, steps: &[&str]) {
+    let dir = format!("{}/c08r", ctx.scratch);
+    let _ = std::fs::remove_dir_all(&dir);
+    std::fs::create_dir_all(&dir).unwrap();
+    let inp = format!("{}/c08r_in.fa", ctx.scratch);
+    let alt1p = format!("{}/c08r_alt1.fa", ctx.scratch);
+    let alt2p = format!("{}/c08r_alt2.fa", ctx.scratch);
+    let records: Vec<Vec<u8>> = vec![b"ACACAC".to_vec(), b"TTGTTGAA".to_vec(), b"".to_vec(), b"GTGTNAC".to_vec()];
+    let alt1: Vec<Vec<u8>> = vec![b"ACACACACAC".to_vec(), b"CA".to_vec()];
+    let alt2: Vec<Vec<u8>> = vec![b"TTTTTTGG".to_vec()];
+    write_fasta(&inp, &records);
+    write_fasta(&alt1p, &alt1);
+    write_fasta(&alt2p, &alt2);
+    let (k, bs, bc) = (2usize, 2usize, 3usize);
+    let argv = {
+        let mut a = vec!["case".to_string(), "C08reuse".to_string()];
+        a.extend(steps.iter().map(|s| s.to_string()));
+        a
+    };
+    ctx.journal.note(|| format!("C08 reuse {:?}", argv));
+    ctx.rep.evaluations += 1;
+    let mut c = CovComputer::new(inp.clone(), dir.clone(), k, bs, bc);
+    c.set_threads(2);
+    let mut norm = true;
+    let mut delim = " ".to_string();
+    let mut counting: Vec<Vec<u8>> = records.clone();
+    let what = format!("one CovComputer (k={k}, bin-size {bs}, {bc} bins) driven through {:?}, each step followed by build_table + compute_coverages", steps);
+    for (i, step) in std::iter::once(&"run").chain(steps.iter()).enumerate() {
+        match *step {
+            "alt1" => {
+                c.set_kmer_path(alt1p.clone());
+                counting = alt1.clone();
+            }
+            "alt2" => {
+                c.set_kmer_path(alt2p.clone());
+                counting = alt2.clone();
+            }
+            "raw" => {
+                c.set_norm(false);
+                norm = false;
+            }
+            "norm" => {
+                c.set_norm(true);
+                norm = true;
+            }
+            "csv" => {
+                c.set_delim(",".into());
+                delim = ",".into();
+            }
+            "threads3" => c.set_threads(3),
+            "mem-low" => c.set_max_memory(0.5),
+            _ => {}
+        }
+        let r = guard(|| {
+            c.build_table().unwrap();
+            c.compute_coverages();
+        });
+        if let Err(p) = r {
+            return viol(ctx, "panic", steps.len() * 10 + i, format!("{what}: round {i} panicked: {p}"), argv);
+        }
+        let table = model::counts(&counting, k);
+        let text = std::fs::read_to_string(format!("{dir}/kmers.vectors")).unwrap_or_default().replace(&delim, " ");
+        if let Err((key, msg)) = check_cov_rows(&text, &records, k, &table, bs, bc, norm) {
+            return viol(ctx, &key, steps.len() * 10 + i, format!("{what}: round {i} (after {:?}): {msg}", step), argv);
+        }
+    }
+    ctx.rep.nontrivial += 1;
+}
+
+fn c08_reuse(ctx: &mut Ctx) {
+    let alphabet = ["alt1", "alt2", "raw", "norm", "csv", "threads3", "mem-low", "run"];
+    let mut sh = ctx.shard;
+    let mut n = 0u64;
+    for a in alphabet {
+        if sh.mine() {
+            c08_reuse_sequence(ctx, &[a]);
+            n += 1;
+        }
+        for b in alphabet {
+            if sh.mine() {
+                c08_reuse_sequence(ctx, &[a, b]);
+                n += 1;
+            }
+            if ctx.thorough() {
+                for c in alphabet {
+                    if sh.mine() {
+                        c08_reuse_sequence(ctx, &[a, b, c]);
+                        n += 1;
+                    }
+                }
+            }
+        }
+    }
+    ctx.rep.count("cases.object_reuse_sequences", n);
+    if ctx.shard.is_first() {
+        ctx.rep.sample("object reuse: one CovComputer: run; set_kmer_path(alt1), run; set_kmer_path(alt2), run - each round against the model for the counting input in force".to_string());
+    }
+}
+
 pub fn c08(ctx: &mut Ctx) {
     c08_bin_lattice(ctx);
+    c08_reuse(ctx);
     // per-record routine on synthetic tables
     let mut sh = ctx.shard;
     let mut todo: Vec<Vec<u8>> = Vec::new();
@@ -1081,7 +1222,7 @@ pub fn c08(ctx: &mut Ctx) {
         ctx.rep.sample("pipeline: records [\"ACA\",\"CN\"] k=2 bin-size=2 bin-count=2 raw, threads=2, memory=1.0".to_string());
         ctx.rep.sample("direct: table with multiplicities 1, bs*bc-1, bs*bc, bs*bc+1, 10^6, u32::MAX and absent k-mers; bin-size 2 x 5 bins".to_string());
         ctx.rep.sample("pipeline: [A x 50, \"AAC\", \"\", \"NNNN\"] k=3 bin-size=5 bin-count=5, flush per record (memory 0.5)".to_string());
-        ctx.rep.notes.push("C08: per-record routine on S5 strings x k 1..=3 x 6 bin shapes with synthetic tables; full pipeline on every single record over {A,C,T,N}^(<=3) and every pair over {A,T,N}^(<=2, thorough 3) (thorough: also triples over {A,G,N}^(<=2)) x k 1..=2 x 4 bin shapes x norm/raw x 5 (threads, memory) settings (incl. ceilings of a few bases: the counting step then runs in several chunks) with same / different counting input; high-multiplicity and 200-record sets; compute_coverages on harness-written tables. 'flush every few records' is unreachable (threshold is whole GiB of bases): only per-record (memory<1) and single-batch flushing exist".to_string());
+        ctx.rep.notes.push("C08: per-record routine on S5 strings x k 1..=3 x 6 bin shapes with synthetic tables; full pipeline on every single record over {A,C,T,N}^(<=3) and every pair over {A,T,N}^(<=2, thorough 3) (thorough: also triples over {A,G,N}^(<=2)) x k 1..=2 x 4 bin shapes x norm/raw x 5 (threads, memory) settings (incl. ceilings of a few bases: the counting step then runs in several chunks) with same / different counting input; high-multiplicity and 200-record sets; compute_coverages on harness-written tables; operation sequences on one CovComputer object (every sequence of <= 2, thorough 3, setter calls from an alphabet of 8, each followed by build_table + compute_coverages). 'flush every few records' is unreachable (threshold is whole GiB of bases): only per-record (memory<1) and single-batch flushing exist".to_string());
     }
 }
 
@@ -1097,6 +1238,14 @@ pub fn replay(ctx: &mut Ctx, args: &[String]) {
         "C06" => {
             let recs = list_from_code(&args[1]);
             let ser = Ser::parse(&args[2]);
+            let (text, bounds) = serialise(&recs, ser);
+            let bytes = container_bytes(&text, &bounds, &args[3]);
+            c06_read(ctx, &recs, ser, &args[3], &bytes, 0, vec![]);
+        }
+        "C06len" => {
+            let len: usize = args[1].parse().unwrap();
+            let ser = Ser::parse(&args[2]);
+            let recs = vec![Rec { header: format!("first len={}", len), bases: long_bases(len, len) }, Rec { header: "second".into(), bases: b"ACGTN".to_vec() }];
             let (text, bounds) = serialise(&recs, ser);
             let bytes = container_bytes(&text, &bounds, &args[3]);
             c06_read(ctx, &recs, ser, &args[3], &bytes, 0, vec![]);
@@ -1163,6 +1312,10 @@ pub fn replay(ctx: &mut Ctx, args: &[String]) {
             let bs: usize = args[3].parse().unwrap();
             let bc: usize = args[4].parse().unwrap();
             c08_one(ctx, &unhex(&args[1]), k, &synthetic_table(k, bs, bc), bs, bc);
+        }
+        "C08reuse" => {
+            let steps: Vec<&str> = args[1..].iter().map(|s| s.as_str()).collect();
+            c08_reuse_sequence(ctx, &steps);
         }
         "C08bin" => {
             let bs: usize = args[1].parse().unwrap();
